@@ -38,7 +38,7 @@ PROPS = {
     "C11": dict(
         proof_modules=["KsVerif.Proofs.C11", "KsVerif.Proofs.C11Amqp"],
         families=["stages.redis", "stages.amqp", "stages.http", "stages.dns", "stages.kafka",
-                  "stages.redismut", "stages.amqpmut", "stages.httpmut", "stages.kafkamut"],
+                  "stages.redismut", "stages.amqpmut", "stages.httpmut", "stages.kafkamut", "stages.h2c"],
         rule="stages.<proto>mut: the same conversations with 1-3 byte-level mutations (a byte or a 16/32-bit field set to a "
              "boundary value, a truncation) - every item the dissector still emits goes through the stages; "
              "stages.<proto>: the conversations of redis.conv, amqp.conv (every method, tables holding every field type, "
@@ -54,7 +54,7 @@ PROPS = {
     ),
     "C16": dict(
         proof_modules=["KsVerif.Proofs.C16"],
-        families=["queries.redis", "queries.amqp", "queries.http", "queries.dns", "queries.kafka"],
+        families=["queries.redis", "queries.amqp", "queries.http", "queries.dns", "queries.kafka", "queries.h2c"],
         rule="queries.<proto>: for every entry produced from the conversations of the stages families, its method, summary "
              "and status queries and every registered macro are evaluated on that entry by the real kfl.Apply; the Lean "
              "side parses the same query texts (shapes Summarize produces), prepares and evaluates them on the entry with "
@@ -172,7 +172,7 @@ PROPS = {
     ),
     "C03": dict(
         proof_modules=["KsVerif.Proofs.C03"],
-        families=["http.conv", "http.entry"],
+        families=["http.conv", "http.entry", "http.h2c"],
         rule="http.entry: what Analyze derives after the JSON round trips - path, query parameters (repeated keys, empty values, "
              "keys without '=', percent-escapes, '+'), method, status - for fixed targets and the http.conv conversations; "
              "http.conv: HTTP/1.0 and 1.1 conversations of 1-4 pipelined exchanges from an independent encoder (cross-checked "
@@ -188,7 +188,7 @@ PROPS = {
     ),
     "C04": dict(
         proof_modules=["KsVerif.Proofs.C04"],
-        families=["http2.conv"],
+        families=["http2.conv", "http.h2c"],
         rule="http2.conv: abstract frame scripts encoded with x/net/http2's Framer and one HPACK encoder per half (client "
              "preface, SETTINGS): 1-4 streams whose HEADERS (split over 0-2 CONTINUATION frames), DATA and trailer frames "
              "interleave in a random order-preserving merge, HPACK dynamic-table reuse across requests, gRPC and plain "
